@@ -49,6 +49,11 @@ CHECKS = {
    technique="deterministic simulation: full chain + real resolver on fake clock with scripted server outages and request-local failure causes; suppression/back-off envelope model as oracle",
    text="Seeded search over outage scripts (all servers of a zone silent / SERVFAIL / REFUSED / slower than the client's deadline), timed question histories with immediate repeats across names, types and CD values, client-side deadlines and tiny enforce-mode budgets (request-local causes), random valid min/max failure TTLs, tiny failure-cache sizes and rfc9520 on/off. Every SERVFAIL+EDE 13 served without upstream traffic must be justified by a genuine failure of that question or of a zone at or above the name inside a window that starts at the minimum, at most doubles per consecutive failure and never exceeds the maximum; request-local failures open no window; rfc9520 off means no suppression.",
    note="Which zone a failure is blamed on depends on cached delegations, so every failing zone on the path is credited (generous). The single-probe-after-expiry clause and ECS audiences are not asserted here."),
+ "C19": dict(
+   level="exploration", design="§3 C19",
+   technique="deterministic simulation: full chain + real resolver over a geo-style authoritative zone that records every received OPT and tags answers with audience/scope/serial; policy model as oracle",
+   text="Seeded search over ECS policies (incl. invalid ceilings and client networks), scope behaviours of the authority (zero/same/narrower/wider/fixed), client sequences from allowed and disallowed addresses with subnet options of both families, any netmask, host bits set or family mismatch plus other EDNS options, fake-time gaps across the scoped TTL cap, prefetch on/off. Upstream sees no client option except a policy-conformant truncated subnet for allowed clients; no ECS in client replies; a scoped answer reaches only clients inside its effective scope and never unscoped clients; scoped answers respect the cap; no subnet-bearing upstream query without a client query behind it.",
+   note="Audience, scope and serial are carried in rdata by the simulated authority. The shared-denial clause for ECS/CD questions is covered by C02's CD clause and only partly here."),
 }
 
 NOT_APPLICABLE = {
